@@ -20,6 +20,7 @@ From BCL Require Import Model.Vm Model.Verify Model.Api Proofs.OptionsProofs Pro
 Open Scope N_scope.
 From BCL Require Import Model.Api Model.Compile Spec.Syntax Spec.AstSem Proofs.ParserInvProofs Proofs.T2Expr Proofs.T2Proofs Proofs.T1Expr Proofs.T1Proofs Proofs.Language.
 From BCL Require Import Proofs.VerifyFrag Proofs.CompileVerifies.
+From BCL Require Import Proofs.Limits.
 
 Theorem C10_check_sound : forall p fuel tr, verify p = true ->
   let (m, r) := run_fuel fuel p tr (init_vm p) in
@@ -111,6 +112,21 @@ Theorem C10_parsed_verifies : forall name src,
   verify (pr_prog pr) = true.
 Proof. first [exact CompileVerifies.parsed_verifies | apply CompileVerifies.parsed_verifies]. Qed.
 Print Assumptions C10_parsed_verifies.
+
+(* the verifier's labels of compiled code: maximal operand depth = need_prog, maximal block depth = nest_prog *)
+Theorem C10_compile_peak : forall (p : list stmt) name pos lfs,
+  let cs := compile_program p in
+  hadError cs = false -> nconsts cs < 2^64 ->
+  length pos = length (code cs) ->
+  peak {| g_name := name; g_code := rev (code cs); g_consts := rev (consts cs); g_pos := pos; g_lfs := lfs |}
+  = Some (need_prog p, nest_prog p).
+Proof. first [exact Limits.compile_peak | apply Limits.compile_peak]. Qed.
+Print Assumptions C10_compile_peak.
+
+Theorem C10_no_limit_below : forall p d b, peak p = Some (d, b) -> d <= stackSize -> b <= blockStackSize ->
+  forall fuel tr, ~ limit_res (snd (run_fuel fuel p tr (init_vm p))).
+Proof. first [exact Limits.no_limit_below | apply Limits.no_limit_below]. Qed.
+Print Assumptions C10_no_limit_below.
 
 Example C10_example :
   verify (pr_prog (parse_whole (bs "input") (bs "var x = 1 and 2 or 3 def b { f = x and x } print x"))) = true.
